@@ -2,9 +2,11 @@ package checks
 
 import (
 	"bytes"
+	"compress/zlib"
 	"encoding/binary"
 	"encoding/json"
 	"fmt"
+	"io"
 	iofs "io/fs"
 	"os"
 	"sort"
@@ -131,7 +133,7 @@ func c07Trees(quick bool, blk int64) []*treeSpec {
 	big := &treeSpec{Dirs: []string{"many"}, Files: map[string][]byte{}}
 	n := 2000
 	if quick {
-		n = 300
+		n = 800 // listing longer than two metadata blocks
 	}
 	for i := 0; i < n; i++ {
 		big.Files[fmt.Sprintf("many/entry-%05d.dat", i)] = sqContent(fmt.Sprint("m", i), i%7)
@@ -317,6 +319,11 @@ func runSqCase(c *sqCase, t *treeSpec) (sig, msg, outcome string) {
 	}
 	if !(tbl["inode"] < tbl["dir"] && tbl["dir"] < tbl["id"]) {
 		return "superblock|table-order", fmt.Sprintf("table starts out of order: inode=%d dir=%d id=%d", tbl["inode"], tbl["dir"], tbl["id"]), "invalid"
+	}
+	// (3b) the inode and directory tables are chains of metadata blocks of at most 8 KiB each
+	// (walked here from the raw bytes, independently of the library's reader)
+	if sg, m := sqMetaChains(d, c, tbl, fragT, used, sb); sg != "" {
+		return "metachain|" + tag + "|" + sg, m, "invalid"
 	}
 	// (1) read back
 	got := map[string][]byte{}
@@ -573,4 +580,64 @@ func C07(r *ev.Run) {
 	r.Set("rule", "trees: every ordered forest with <= 4 nodes (quick: 3) and height <= 3 x name rotations x size rotations over {0,1,blk-1,blk,blk+1,2blk+17} with zero-run / compressible / incompressible contents chosen per path; plus symlink variants, a file mixing compressible and incompressible full blocks, 2000 entries in one directory, 530 files with fragment tails (> 512 fragment blocks), trees of exactly 512 and 1024 fragment blocks, 48 directories x 14 long names with nested sub-directories (directory table of several metadata blocks), 720 symlinks with targets of every length 3..245 (targets straddling inode metadata blocks), 900 files of one to three full blocks (inodes with block lists straddling inode metadata blocks at many alignments), a sparse file; x compressor {default, gzip level 9, xz, lz4, zstd} x fragments on/off x NoCompress{Inodes,Data,Fragments}/NoPad variants x block size {4 KiB, 128 KiB, 1 MiB} x read cache {default, 0, one block} x start {0, 1 MiB}; non-trivial = distinct (tree, options) pairs that Finalize accepted and that were read back and compared entry by entry, with the superblock checked against the device write log")
 	r.Set("exhaustive", done == len(cases))
 	r.Assume("the same tree compared against the source under every option set makes the views identical across option sets (differential oracle)")
+}
+
+// sqMetaChains walks the inode table and the directory table of a written image as chains of
+// metadata blocks (2-byte header, bit 15 = stored uncompressed, low 15 bits = stored length) and
+// reports a block that is empty, runs past the table, or holds more than 8192 bytes (uncompressed
+// blocks always; compressed ones when the compressor is zlib, decoded with the standard library).
+func sqMetaChains(d *memdev.Dev, c *sqCase, tbl map[string]int64, fragT, used int64, sb []byte) (sig, msg string) {
+	zlibComp := binary.LittleEndian.Uint16(sb[20:22]) == 1
+	walk := func(name string, start, end int64, exact bool) (string, string) {
+		p := start
+		for i := 0; p < end; i++ {
+			h := binary.LittleEndian.Uint16(d.Peek(c.Start+p, 2))
+			sz := int64(h & 0x7fff)
+			if sz == 0 {
+				return name + "|empty-block", fmt.Sprintf("%s table: metadata block %d at +%d has stored length 0", name, i, p-start)
+			}
+			if p+2+sz > end {
+				return name + "|block-overruns-table", fmt.Sprintf("%s table: metadata block %d at +%d (stored length %d) runs past the end of the table at +%d", name, i, p-start, sz, end-start)
+			}
+			if h&0x8000 != 0 {
+				if sz > 8192 {
+					return name + "|oversized-block", fmt.Sprintf("%s table: uncompressed metadata block %d at +%d holds %d bytes (limit 8192)", name, i, p-start, sz)
+				}
+			} else if zlibComp {
+				zr, err := zlib.NewReader(bytes.NewReader(d.Peek(c.Start+p+2, int(sz))))
+				if err != nil {
+					return name + "|bad-zlib", fmt.Sprintf("%s table: metadata block %d at +%d is marked compressed but is not a zlib stream: %v", name, i, p-start, err)
+				}
+				n, err := io.Copy(io.Discard, zr)
+				if err != nil {
+					return name + "|bad-zlib", fmt.Sprintf("%s table: metadata block %d at +%d does not inflate: %v", name, i, p-start, err)
+				}
+				if n > 8192 {
+					return name + "|oversized-block", fmt.Sprintf("%s table: metadata block %d at +%d inflates to %d bytes (limit 8192)", name, i, p-start, n)
+				}
+			}
+			p += 2 + sz
+		}
+		if exact && p != end {
+			return name + "|chain-misses-end", fmt.Sprintf("%s table: block chain ends at +%d, table ends at +%d", name, p-start, end-start)
+		}
+		return "", ""
+	}
+	if sg, m := walk("inode", tbl["inode"], tbl["dir"], true); sg != "" {
+		return sg, m
+	}
+	// the directory table ends where the next structure begins: the first fragment-table block when
+	// there are fragments, otherwise the lowest table start above it
+	dirEnd := used
+	for _, v := range tbl {
+		if v > tbl["dir"] && v < dirEnd {
+			dirEnd = v
+		}
+	}
+	if fragT != -1 && binary.LittleEndian.Uint32(sb[16:20]) > 0 {
+		if f0 := int64(binary.LittleEndian.Uint64(d.Peek(c.Start+fragT, 8))); f0 > tbl["dir"] && f0 < dirEnd {
+			dirEnd = f0
+		}
+	}
+	return walk("dir", tbl["dir"], dirEnd, false)
 }
